@@ -296,7 +296,7 @@ def c03_leg(chk, tier, seed):
     # Stacked Borrows / validity / leak checking (no C compiler's view of the types involved)
     nmiri = 400 if thorough else 40
     mres = run_miri_programs(seed + 7900, nmiri, "c03", profile=prof, ncalls=(40 if thorough else 25),
-                             flags_for=lambda i: "-Zmiri-tree-borrows" if i % 4 == 3 else "")
+                             flags_for=lambda i: ["", "-Zmiri-symbolic-alignment-check", "-Zmiri-strict-provenance", "-Zmiri-tree-borrows"][i % 4])
     results += mres
     stats = {"programs": 0, "programs_cpp": 0, "programs_miri": 0, "calls": 0, "objects_tracked": 0, "callbacks_released": 0, "skipped": 0}
     hist = set()
